@@ -21,7 +21,7 @@ typedef struct Obj { uint32_t state; int key; int isval; uint32_t serial; } Obj;
 static const char *TNAME[3] = {"bst", "rb", "avl"};
 
 /* configuration */
-static int g_type, g_notif, g_withdata, g_desc;
+static int g_type, g_notif, g_withdata, g_desc, g_kn, g_vn;      /* g_kn / g_vn: a key / value notifier is installed (cfg bits 8 / 16 omit one of them) */
 static int g_props = 7;           /* bit0 C12, bit1 C13, bit2 C14 */
 static int U;                     /* key universe size */
 static PTree *tree;
@@ -82,7 +82,7 @@ static void viol(int prop, const char *symptom, const char *fmt, ...) {
 	if (!((g_props >> (prop - 12)) & 1)) { if (prop != 14) abort_hist = 1; return; }     /* ownership oracles stay silent (and do not cut the history short) when C14 is not the property under check */
 	abort_hist = 1;
 	if (vh_nviol < vh_max_viol)
-		vh_viol(pn, key, "%s [cfg notif=%d data=%d desc=%d n=%d history: %s]", buf, g_notif, g_withdata, g_desc, mn, oplog);
+		vh_viol(pn, key, "%s [cfg notif=%s data=%d desc=%d n=%d history: %s]", buf, !g_notif ? "none" : g_kn && g_vn ? "both" : g_kn ? "key-only" : "value-only", g_withdata, g_desc, mn, oplog);
 }
 
 static Obj *mkobj(int key, int isval, uint32_t state) {
@@ -125,7 +125,7 @@ static void vdestroy(ppointer p) { on_destroy(p, 1); }
 static int ord(int k) { return g_desc ? -k : k; }
 
 static void tree_new(void) {
-	if (g_notif) tree = p_tree_new_full((PTreeType)g_type, cmp3, g_withdata ? COOKIE : NULL, kdestroy, vdestroy);
+	if (g_notif) tree = p_tree_new_full((PTreeType)g_type, cmp3, g_withdata ? COOKIE : NULL, g_kn ? kdestroy : NULL, g_vn ? vdestroy : NULL);
 	else if (g_withdata) tree = p_tree_new_with_data((PTreeType)g_type, cmp3, COOKIE);
 	else tree = p_tree_new((PTreeType)g_type, cmp2);
 	if (!tree) VH_DIE("p_tree_new failed");
@@ -135,7 +135,12 @@ static void tree_new(void) {
 
 /* after an operation: compare the destroyed log with the expectation */
 static void check_destroyed(Obj *e1, Obj *e2) {
-	int exp = (e1 != NULL) + (e2 != NULL), i;
+	int exp, i; Obj *k1 = e1, *v1 = e2;
+	if (!g_kn) e1 = NULL;       /* objects of a kind without notifier are simply forgotten by the tree: nothing may be called for them */
+	if (!g_vn) e2 = NULL;
+	exp = (e1 != NULL) + (e2 != NULL);
+	if (k1 && !g_kn && k1->state != ST_LIVE) { viol(14, "object-altered", "key object of key %d altered although no key notifier is installed", k1->key); return; }
+	if (v1 && !g_vn && v1->state != ST_LIVE) { viol(14, "object-altered", "value object of key %d altered although no value notifier is installed", v1->key); return; }
 	if (!g_notif) { if (ndestroyed) viol(14, "destroy-without-notifier", "notifier called but none installed"); return; }
 	for (i = 0; i < ndestroyed && i < 16; i++)
 		if (destroyed[i] != e1 && destroyed[i] != e2) {
@@ -392,12 +397,10 @@ static void op_lookup(int k) {
 static void model_drop_all(const char *op) {
 	int k; long exp = 0;
 	for (k = 0; k < U; k++) if (mkey[k]) {
-		exp += 2;
-		if (g_notif && !abort_hist) {
-			if (mkey[k]->state != ST_DEAD) viol(14, "not-destroyed", "%s: key object of key %d not passed to notifier", op, k);
-			else if (mval[k]->state != ST_DEAD) viol(14, "not-destroyed", "%s: value object of key %d not passed to notifier", op, k);
-		} else if (!g_notif && !abort_hist) {
-			if (mkey[k]->state != ST_LIVE || mval[k]->state != ST_LIVE) viol(14, "object-altered", "%s altered user objects without notifier", op);
+		exp += g_kn + g_vn;
+		if (!abort_hist) {
+			if (g_kn ? mkey[k]->state != ST_DEAD : mkey[k]->state != ST_LIVE) viol(14, g_kn ? "not-destroyed" : "object-altered", g_kn ? "%s: key object of key %d not passed to notifier" : "%s altered the key object of key %d without a key notifier", op, k);
+			else if (g_vn ? mval[k]->state != ST_DEAD : mval[k]->state != ST_LIVE) viol(14, g_vn ? "not-destroyed" : "object-altered", g_vn ? "%s: value object of key %d not passed to notifier" : "%s altered the value object of key %d without a value notifier", op, k);
 		}
 		bury(mkey[k]); bury(mval[k]); mkey[k] = mval[k] = NULL; pset(k, 0);
 	}
@@ -551,7 +554,7 @@ int main(int argc, char **argv) {
 	vh_rng r; double t0 = vh_now(); int i, j;
 	g_type = (int)vh_argi(argc, argv, "--type", 1);
 	g_props = (int)vh_argi(argc, argv, "--props", 7);
-	g_notif = cfg & 1; g_withdata = (cfg >> 1) & 1; g_desc = (cfg >> 2) & 1;
+	g_notif = cfg & 1; g_withdata = (cfg >> 1) & 1; g_desc = (cfg >> 2) & 1; g_kn = g_notif && !(cfg & 8); g_vn = g_notif && !(cfg & 16);
 	U = (int)vh_argi(argc, argv, "--U", 4);
 	if (!strcmp(mode, "perm")) U = n;
 	if (!strcmp(mode, "random") && U < 2 * maxn) U = 2 * maxn;
